@@ -651,7 +651,13 @@ class IntegratePlanar:
         assert isinstance(expx, int)
         assert isinstance(expy, int)
         if nnodes is None:
-            nnodes = 3 + expx + expy + curve.degree
+            # x^expx * y^expy * dy/dt is a polynomial of degree
+            # degree * (expx + expy + 1) - 1: use enough nodes to
+            # integrate it exactly also on curved segments
+            nnodes = max(
+                3 + expx + expy + curve.degree,
+                curve.degree * (expx + expy + 1),
+            )
         assert isinstance(nnodes, int)
         assert nnodes >= 0
         assert expx >= 0
